@@ -83,7 +83,7 @@ fn blocked(o: &SObs) -> Vec<(usize, usize, String)> {
 
 pub fn body(sc: SScenario, obs: Arc<Mutex<SObs>>) {
     ctl::window(false);
-    ctl::spurious(true); // waits may return unnotified (std permits it): a 1-cost deviation
+    ctl::spurious(crate::l2::spurious_now()); // waits may return unnotified (std permits it): a 1-cost deviation
     let srv = start_server();
     ctl::settle();
     let mut hs = Vec::new();
@@ -321,6 +321,7 @@ pub fn run_item(which: &'static str, sc: &SScenario, bound: u32, tier: Tier, acc
         bound: Some(bound),
         max_execs: 400_000,
         wall: Duration::from_secs(if tier == Tier::Thorough { 300 } else { 30 }),
+        spurious_upto: Some(if tier == Tier::Thorough { bound.saturating_sub(1) } else { bound }),
     };
     let (s2, s3) = (sc.clone(), sc.clone());
     let found = explore_scenario::<SObs, _, _>(&cfg, acc, &sc.to_json(), move |o| body(s2.clone(), o), |o, r| judge(&s3, o, r, which));
